@@ -245,13 +245,32 @@ def clear_inverses(p):
     raise TooBig('nested reciprocals')
 
 
+def clear_negative_sqrt(p):
+    """multiply p by sqrt(A)^k for every radical that occurs with a negative exponent (sqrt(A) is not identically zero), then
+    fold sqrt(A)^2 = A: decides a/sqrt(A) + b sqrt(A) == 0"""
+    for _ in range(8):
+        neg = {}
+        for m in p:
+            for a, e in m:
+                if a[0] == 'fn' and a[1] == 'sqrt' and e < 0:
+                    neg[a] = min(neg.get(a, 0), e)
+        if not neg:
+            return p
+        a = sorted(neg, key=repr)[0]
+        p = reduce_sqrt(mul(p, {((a, -neg[a]),): Fraction(1)}))
+    return p
+
+
 def witness(p):
     """canonical numerator of p: empty iff p == 0 (polynomials in independent atoms)"""
     p = reduce_trig(p)
     if not p:
         return p
     p = clear_inverses(p)
-    return reduce_trig(p)
+    p = reduce_trig(p)
+    if p and any(a[0] == 'fn' and a[1] == 'sqrt' and e < 0 for m in p for a, e in m):
+        p = reduce_trig(clear_negative_sqrt(p))
+    return p
 
 
 def is_zero(p):
